@@ -138,7 +138,7 @@ func (x *Exec) callFunc(fr *Frame, st *State, callee *ssa.Function, bindings []V
 		} else {
 			x.note("call to %s not inlined (recursive, too large or with uncontracted loops): its results are unconstrained and the heap components it may write are havocked", key)
 			for _, m := range mods {
-				x.havocKey(st, m.key, m.t)
+				x.havocKeyCall(st, m.key, m.t)
 			}
 			na := x.s.declare("alloc", "Int")
 			x.assume("true", "(>= "+na+" "+st.alloc+")")
@@ -245,7 +245,7 @@ func (x *Exec) callContract(fr *Frame, st *State, c *Contract, callee *ssa.Funct
 			x.havocAll(st, "contract of "+c.Key+" has no assigns clause and its body has unknown effects")
 		} else {
 			for _, m := range mods {
-				x.havocKey(st, m.key, m.t)
+				x.havocKeyCall(st, m.key, m.t)
 			}
 		}
 	} else {
@@ -526,6 +526,14 @@ func (x *Exec) havocKey(st *State, key string, t types.Type) {
 		x.assume("true", fmt.Sprintf("(= (select %s 0) ((as const (Array %s Bool)) false))", n, x.s.sortOf(mk.Key())))
 	}
 	st.heap[key] = n
+}
+
+// havocKeyCall havocs a heap component because of a call's effects; locals whose
+// address never escapes keep their contents.
+func (x *Exec) havocKeyCall(st *State, key string, t types.Type) {
+	old := x.heapGet(st, key, t)
+	x.havocKey(st, key, t)
+	x.restoreProtected(st, key, old)
 }
 
 func (x *Exec) havocTarget(fr *Frame, st *State, m modTarget) {
